@@ -16,7 +16,7 @@ CHECKS = {
                 text="Every binary/unary operator and every cast between primitive types, at every width: both operands symbolic at full width (mul/div/rem up to 8 bits quick / 16 bits thorough), one literal operand from a boundary set at all widths; value, panic-iff and reason/location queries. Known finding neg-const-mul is confined to its region by an assumption and re-solved outside it.",
                 note="Trusted: z3's bvmul/bvsdiv/bvsrem as arithmetic oracle. Outside: 32/64-bit * / % with both operands free (multiplier miters do not finish); queries that hit the cap are counted inconclusive, never passed.", ref="DESIGN.md section 4, C03"),
     "C04": dict(level="translation_validation", tech="SMT miters: (a) compiled program with optimize_duplicate_gates on vs off, all outputs, all inputs; (b) builder request sequences run by the real CircuitBuilder (verif_hooks) vs literal semantics of the requests, all inputs",
-                text="On/off circuits of every generated program are mitered (panic flag, record under the flag, value bits). Every sequence of <= 2 builder requests of every kind over 2 inputs (thorough: 3 xor/and/not requests) and seeded biased sequences up to 40 requests are executed by the real builder and compared with their literal semantics for all inputs, cache on and off, for every listed output wire.",
+                text="On/off circuits of every generated program are mitered (panic flag, record under the flag, value bits). Every sequence of <= 2 builder requests of every kind over 2 inputs (thorough: 3 xor/and/not requests), every sequence of 4 xor/and requests over 3 inputs that starts with op(i0, i1) (quick: distinct operands, 115k x cache on/off; thorough: also equal operands), and seeded sequences up to 40 requests biased to the rewrite-rule shapes are executed by the real builder and compared with their literal semantics for all inputs, cache on and off, for every listed output wire.",
                 note="The history dimension (which requests) is enumerated/seeded, not symbolic: the builder state lives in HashMaps that CBMC cannot execute (measured). Panic-record bits are compared only under the panic flag (they are ignored by every decoder otherwise).", ref="DESIGN.md section 4, C04"),
     "C05": dict(level="translation_validation", tech=TV + "; fixed id-keyed templates (inference families x integer types, annotated and de-annotated; zero-sized types)",
                 text="Scoped to the solver-decidable core 'static type and emitted wires never diverge': for each template that the checker accepts, compilation does not panic, validate() accepts, parties / bit counts / 161 + size(return) outputs match the declared types, and the circuit equals the reference under the INTENDED types for all inputs. Annotated templates must be accepted. Failing templates are individually listed known findings; all others must pass.",
@@ -26,9 +26,9 @@ CHECKS = {
                 note="Trusted: matches(p, v) in engine/tv/ref.py written from the guide. Arm lists are seeded, <= 8 arms, nesting <= 2.", ref="DESIGN.md section 4, C08"),
     "C09": dict(level="model_checking", tech="bounded model checking of the real literal codec with Kani/CBMC (symbolic 64-bit payloads and bit patterns) + SMT translation validation of identity programs for aggregate layouts",
                 text="Scoped to primitive types and ranges: Kani proves on the real Literal::{is_of_type, as_bits, from_unwrapped_bits} that an accepted literal encodes to exactly size(T) bits in the documented big-endian two's-complement layout, that every bit pattern decodes to the value with that layout, that the type test accepts only representable numbers / well-formed ranges and never panics. Identity programs over nested aggregate types return their argument for all bit patterns (z3).",
-                note="Out of the claim: struct / enum literals through the API (HashMap<String,_> lookups, out of CBMC's reach), Literal::Array/Tuple harnesses (time out), print/parse round trips. Stub: RandomState::new (maps stay empty).", ref="DESIGN.md section 4, C09"),
+                note="Out of the claim: struct / enum literals through the API (HashMap<String,_> lookups, out of CBMC's reach; re-measured: one insert + one get gives no result in 15 min), Literal::Array/Tuple harnesses (time out), the ENCODING of range literals (Vec of symbolic length, times out; only their type test is claimed), print/parse round trips (Display + scanner + parser). Two seeded changes in these areas are recorded as misses (seeded/RESULTS.md). Stub: RandomState::new (maps stay empty).", ref="DESIGN.md section 4, C09"),
     "C10": dict(level="translation_validation", tech="SMT miter of the symbolically simulated register program (real From<&SsaCircuit>) against the SSA circuit, all inputs; structural obligations on the concrete artefact",
-                text="Compiler outputs and arbitrary well-formed gate lists (exhaustive small shapes, seeded larger ones with repeated operands/outputs, unused wires) are converted by the real allocator; outputs equal for all inputs (z3), validate() accepts, no read-before-write, input instructions in order, register count and AND count as specified.",
+                text="Compiler outputs and arbitrary well-formed gate lists (exhaustive small shapes, seeded larger ones with repeated operands/outputs, unused wires) are converted by the real allocator; outputs equal for all inputs (z3), validate() accepts, no read-before-write, the Input instructions load every party's inputs in order, register count and AND count as specified.",
                 note="Circuit shapes/gate lists are enumerated or seeded; inputs symbolic. A Kani harness on the allocator is out of reach (HashMap; measured 900 s, no result).", ref="DESIGN.md section 4, C10"),
     "C11": dict(level="translation_validation", tech="SMT miter of (a) the circuit re-imported by the real bristol_to_garble and (b) an independent reading of the exported text against the original outputs, all inputs",
                 text="Export/import round trip of compiled circuits, templates with repeated/constant/input outputs and seeded gate lists: same non-panic outputs for all inputs; exported text well-formed (counts, single assignment before use, outputs last in order, de-aliased repeats); input-wire outputs refused.",
@@ -37,7 +37,7 @@ CHECKS = {
                 text="Programs with const declarations (external values, earlier consts, nested min/max/+/-, all primitive types) used as values, array sizes, repeat sizes and party counts: compile_with_constants(P, c) equals the substitution semantics for all inputs (value, panic-iff, location) and the compiled twin P[c]; withheld/mistyped constants give errors naming them, never a panic.",
                 note="Constant assignments are seeded boundary values; sizes 1..4 (size 0 belongs to C05).", ref="DESIGN.md section 4, C12"),
     "C13": dict(level="translation_validation", tech=TV + "; all array elements symbolic under the sortedness precondition; relational specification for join(), nested-loop reference for for-join; sorting networks through the hook",
-                text="For every size pair (n, m) up to the bound and several key/payload shapes: for-join loop effects and panics equal the nested-loop join in ascending key order for ALL strictly ascending arrays; join() output satisfies length, zero-padding, sorted flags, flagged = matching elements, no key twice, every common key present (also with duplicate keys within one side). Bitonic sorter networks (hook) sort and permute for all inputs.",
+                text="For every size pair (n, m) up to the bound and several key/payload shapes: for-join loop effects and panics equal the nested-loop join in ascending key order for ALL strictly ascending arrays; join() output satisfies length, zero-padding, sorted flags, flagged = matching elements, no key twice, every common key present (also with duplicate keys within one side); the same for arrays that are fully or partly compile-time constants (the builder folds the networks on constant wires). Bitonic sorter networks (hook) sort and permute for all inputs.",
                 note="Precondition: arrays sorted by their unsigned key as documented. Sizes n + m <= 7 (quick) / 10 (thorough), keys u8/u16 (+u32, tuple keys thorough).", ref="DESIGN.md section 4, C13"),
     "C14": dict(level="translation_validation", tech=TV + "; mutation-heavy generator profile, every live variable returned",
                 text="Programs built from let mut / (compound) assignment through nested accessors with constant and input-dependent indices, aggregate copies, mutation in branches/arms/loops/callees and shadowing: output (all live variables) equals the by-value reference for all inputs.",
